@@ -155,6 +155,8 @@ def tasks(tier, seed):
         if k.startswith("pipeline."):
             out.append({"fn": "copies", "kwargs": {"key": k}, "label": f"copies/{k}"})
     out.append({"fn": "list_values", "kwargs": {}, "label": "set/list_values"})
+    for ko in ((0, 1, 2), (2, 0, 1), (0, 2, 1), (1, 2, 0), (2, 1, 0), (1, 0, 2), (2, 0), (0, 2)):
+        out.append({"fn": "sweep_keys", "kwargs": {"keyorder": list(ko)}, "label": "sweep_keys/" + "".join(map(str, ko))})
     out.append({"fn": "list_pairs", "kwargs": {}, "label": "set/list_pairs"})
     out.append({"fn": "decimal_ints", "kwargs": {}, "label": "eval_entry/decimal_ints"})
     out.append({"fn": "eval_entry_literals", "kwargs": {}, "label": "eval_entry/literals"})
@@ -245,6 +247,22 @@ def copies(key):
     vx.prove(f"C08/copies/base_unchanged/{key}", vx.all_of([_same(base[k], before[k]) for k in keys]))
     vx.prove(f"C08/copies/first_copy_keeps_its_value/{key}", vx.all_of([_same(sq[k], v if k == key else before[k]) for k in keys]))
     vx.prove(f"C08/copies/second_copy_gets_its_value/{key}", vx.all_of([_same(sr[k], w if k == key else before[k]) for k in keys]))
+
+
+def sweep_keys(keyorder):
+    """Keys of a parallel sweep: the value swept for a key ends up in that key's setting and in no other - the dask worker pairs keys
+    and values through the dimension-name mapping (shared with C05/worker, asserted here per key)."""
+    from .c05_space import WKEYS, _worker_run
+
+    values = {k: vx.integer(f"x{i}") for i, k in enumerate(WKEYS)}
+    keys, dn, seen = _worker_run(keyorder, values)
+    lab = "".join(map(str, keyorder))
+    ok = []
+    for k in keys:
+        _, grp, name, _, arg = k.split(".")
+        got = seen.get(name, {}).get(arg)
+        ok.append(got is values[k] or got == values[k])
+    vx.prove(f"C08/sweep/value_reaches_its_own_key/{lab}", vx.all_of(ok), seen=repr(seen)[:200])
 
 
 # ---- bad keys ------------------------------------------------------------------------------------
@@ -622,6 +640,13 @@ def replay(oid, kwargs, model, data):
             except Exception:  # noqa: BLE001
                 pass
         return bool(out), {"accepted_bad_keys": out}
+    if fn == "sweep_keys":
+        from .c05_space import WKEYS, _worker_run
+
+        vals = {k: 11 * (i + 1) for i, k in enumerate(WKEYS)}
+        keys, dn, seen = _worker_run(kwargs["keyorder"], vals)
+        got = {k: seen.get(k.split(".")[2], {}).get(k.split(".")[4]) for k in keys}
+        return got != {k: vals[k] for k in keys}, {"swept": {k: vals[k] for k in keys}, "settings_after": got}
     if fn == "copies":
         key = kwargs["key"]
         proc, _ = _processor("ccd", sym=False)
